@@ -7,6 +7,7 @@ mod oracles;
 mod props;
 mod props2;
 mod props3;
+mod props4;
 mod rng;
 
 use std::io::{BufRead, Write};
@@ -74,11 +75,17 @@ fn main() {
                 "C06" => props::c06(&mut c, &b),
                 "C07" => props::c07(&mut c, &b),
                 "C08" => props2::c08(&mut c, &b),
+                "C09" => props4::c09(&mut c, &b),
+                "C10" => props4::c10(&mut c, &b),
+                "C11" => props4::c11(&mut c, &b),
                 "C12" => props2::c12(&mut c, &b),
                 "C13" => props2::c13(&mut c, &b),
                 "C14" => props2::c14(&mut c, &b),
                 "C15" => props2::c15(&mut c, &b),
                 "C16" => props3::c16(&mut c, &b),
+                "C17" => props4::c17(&mut c, &b),
+                "C18" => props4::c18(&mut c, &b),
+                "C19" => props4::c19(&mut c, &b),
                 _ => { eprintln!("unknown property {}", prop); std::process::exit(2); }
             }
             std::fs::create_dir_all(&outdir).unwrap();
